@@ -9,6 +9,7 @@ void dump_more_msp430dis();
 void dump_more_riscv();
 void dump_more_simtables();
 void dump_more_symbols();
+void dump_more_safe();
 void dump_more_det();
 void dump_more_util();
 void dump_more_macro();
@@ -23,6 +24,7 @@ static void dump_more()
   dump_more_riscv();
   dump_more_simtables();
   dump_more_symbols();
+  dump_more_safe();
   dump_more_det();
   dump_more_util();
   dump_more_macro();
